@@ -63,7 +63,7 @@ def gen(rng, tier):
         links = ";".join("%s:%s" % (rng.choice("LR"), G.hx(G.imprint(rng))) for _ in range(n)) or "-"
         yield "cal %s %s" % (G.hx(G.imprint(rng)), links)
     # 3. calendar time: all shapes up to a length x all publication times up to a bound
-    maxlen, maxp = (7, 70) if not big else (12, 4096)
+    maxlen, maxp = (7, 70) if not big else (10, 1024)
     for ln in range(0, maxlen + 1):
         for v in range(1 << ln):
             bits = format(v, "0%db" % ln) if ln else "-"
@@ -114,7 +114,7 @@ CONFIG.rule = ("KSI_HashChain_aggregate / KSI_AggregationHashChain_aggregate (me
                "of length 0..75 with every sibling kind (imprint, legacy id, metadata), corrections from the boundary set "
                "{0,1,254..257,2^31-1,2^31,2^32-1,2^32,2^32+1,2^63,2^64-1} and random 64-bit, start levels 0..255(+256,300); "
                "KSI_HashChain_aggregateCalendar on 0..40 links with mixed algorithms; calculateAggregationTime on all shapes "
-               "of length<=7 x publication times<=70 (thorough: <=12 x <=4096, exhaustive) plus random 32/63/64-bit times "
+               "of length<=7 x publication times<=70 (thorough: <=10 x <=1024, exhaustive) plus random 32/63/64-bit times "
                "with tree-walk generated valid shapes and single-bit corruptions; calculateShape for lengths 0..100. The "
                "model driver hashes with SHA-1/256/384/512 written in Lean, first validated against KSI_DataHash_create. "
                "Distinct by op line; hash self-test lines are counted trivial.")
